@@ -776,7 +776,49 @@ def unit_file(item):
     return p
 
 
+def unit_mdam(item):
+    """MDAM installs its own greedy-rollout function on the rollout baseline (best reward over the decoder paths of each
+    instance).  For every data-set size and evaluation batch size (dividing the size or not) the value at position i
+    must be the best-path reward of instance i; the model is a marker whose rewards are a known function of the instance."""
+    import types
+
+    from rl4co.data.dataset import TensorDictDataset
+    from rl4co.models.zoo.mdam.model import rollout as mdam_rollout
+
+    class Marker(nn.Module):
+        def forward(self, td, env=None, decode_type="greedy", **kw):
+            key = td["locs"][:, 0, 0] * 100.0
+            return {"reward": key[:, None] - torch.tensor([3.0, 0.0, 7.0])[None]}  # path 1 is the best one
+
+    env = types.SimpleNamespace(reset=lambda batch: batch)
+    p = Partial()
+    for N in range(1, item["Nmax"] + 1):
+        locs = torch.arange(N * 3 * 2, dtype=torch.float32).reshape(N, 3, 2) / 50.0
+        ds = TensorDictDataset(TensorDict(dict(locs=locs), batch_size=[N]))
+        want = (locs[:, 0, 0] * 100.0).tolist()
+        for bs in range(1, N + 2):
+            try:
+                got = mdam_rollout(types.SimpleNamespace(dataset=None), Marker(), env, batch_size=bs, device="cpu", dataset=ds).tolist()
+            except Exception as e:  # noqa: BLE001
+                got = e
+            p.add(states=1, transitions=-(-N // bs), evaluations=N, distinct_count=1)
+            p.case(f"mdam|{N}|{bs}")
+            ok = not isinstance(got, Exception) and len(got) == N and all(abs(a - b) < 1e-4 for a, b in zip(got, want))
+            p.outcome(f"mdam|{'ok' if ok else 'bad'}")
+            if not ok:
+                trig = "eval_partial_last_batch" if N % bs else "eval_dividing_batch"
+                p.violation(
+                    dict(property=PID, env="rollout_baseline", config="mdam_rollout", observable="extra", trigger=trig),
+                    dict(kind="mdam", Nmax=item["Nmax"], N=N, eval_bs=bs),
+                    f"MDAM rollout baseline: N={N} eval batch size {bs}: values {got if isinstance(got, Exception) else [round(x, 3) for x in got]} are not the per-instance best-path rewards {[round(x, 3) for x in want]}",
+                )
+    p.sample(dict(part="MDAM rollout override", sizes=f"1..{item['Nmax']}"), cap=1)
+    return p
+
+
 def unit(item):
+    if item.get("head", {}).get("kind") == "mdam":
+        return unit_mdam(item)
     if item.get("head", {}).get("kind") == "file":
         return unit_file(item)
     p = Partial()
@@ -926,6 +968,7 @@ def main(tier):
     items = build_items(tier, seed)
     if not os.environ.get("VERIF_ONLY") or "file" in os.environ.get("VERIF_ONLY"):
         items += [dict(head=dict(kind="file"), N=n) for n in ((3, 4) if tier == "quick" else (1, 2, 3, 4, 5))]
+        items += [dict(head=dict(kind="mdam"), Nmax=5 if tier == "quick" else 8)]
     rep.merge_all(pmap(unit, items))
     rep.extra["units_by_kind"] = {k: sum(1 for it in items if it["head"]["kind"] == k) for k in sorted({it["head"]["kind"] for it in items})}
     rep.extra["max_N"] = nmax
@@ -935,6 +978,10 @@ def main(tier):
 
 
 def replay(rec):
+    if rec.get("kind") == "mdam":
+        p = unit_mdam(dict(head=dict(kind="mdam"), Nmax=rec["Nmax"]))
+        hit = [v for v in p.violations if v["replay"]["N"] == rec["N"] and v["replay"]["eval_bs"] == rec["eval_bs"]]
+        return bool(hit), "; ".join(v["msg"] for v in hit[:1]) or "MDAM rollout values belong to their instances"
     if rec.get("kind") == "file":
         p = unit_file(dict(head=dict(kind="file"), N=rec["N"]))
         return bool(p.violations), "; ".join(v["msg"] for v in p.violations[:2]) or "file-backed datasets return the stored dtypes, values and order"
